@@ -18,62 +18,31 @@ def rowJ (n : String) (r : Row) : J :=
 def alnJ (a : AlnA) : J := J.arr (a.map fun (n, r) => rowJ n r)
 def denseJ (a : AlnD) : J := J.obj (a.map fun (n, s) => (n, J.str (String.ofList s)))
 
-inductive Op where
-  | slice (a b : Option Int) | int (i : Int) | rc | takeSeqs (names : List String) (neg : Bool)
-  | takePositions (cols : List Int) (neg : Bool) | toRna | toDna | addSelf | addCopy | keep (locs : List (Int × Int))
-  | other
-
-def parseOp (j : J) : Except String Op := do
+def parseOp (j : J) : Except String (Option AOp) := do
   match ← j.toList with
-  | [J.str "slice", a, b] => pure (.slice (← a.toOptInt) (← b.toOptInt))
-  | [J.str "int", i] => pure (.int (← i.toInt))
-  | [J.str "rc"] => pure .rc
-  | [J.str "take_seqs", ns, neg] => pure (.takeSeqs (← ns.toListOf J.toStr) (← neg.toBool))
-  | [J.str "take_positions", cols, neg] => pure (.takePositions (← cols.toListOf J.toInt) (← neg.toBool))
-  | [J.str "to_rna"] => pure .toRna
-  | [J.str "to_dna"] => pure .toDna
-  | [J.str "add", J.str "self"] => pure .addSelf
-  | [J.str "add", J.str "copy"] => pure .addCopy
-  | [J.str "keep", locs] => pure (.keep (← locs.toListOf (J.toPairOf J.toInt J.toInt)))
-  | _ => pure .other
+  | [J.str "slice", a, b] => pure (some (.slice (← a.toOptInt) (← b.toOptInt)))
+  | [J.str "int", i] => pure (some (.int (← i.toInt)))
+  | [J.str "rc"] => pure (some .rc)
+  | [J.str "take_seqs", ns, neg] => pure (some (.takeSeqs (← ns.toListOf J.toStr) (← neg.toBool)))
+  | [J.str "take_positions", cols, neg] => pure (some (.takePositions (← cols.toListOf J.toInt) (← neg.toBool)))
+  | [J.str "to_rna"] => pure (some .toRna)
+  | [J.str "to_dna"] => pure (some .toDna)
+  | [J.str "add", J.str "self"] => pure (some .addSelf)
+  | [J.str "add", J.str "copy"] => pure (some .addCopy)
+  | [J.str "keep", locs] => pure (some (.keep (← locs.toListOf (J.toPairOf J.toInt J.toInt))))
+  | _ => pure none
 
-def stepA (dna : Bool) (a : AlnA) : Op → Option (Except Err (AlnA × Bool))
-  | .slice x y => some ((mapRows (fun r => rowSlice r x y) a).map (·, dna))
-  | .int i => some ((mapRows (fun r => rowInt r i) a).map (·, dna))
-  | .rc => some ((mapRows (rowRc dna) a).map (·, dna))
-  | .takeSeqs ns neg => some (.ok (takeSeqs a ns neg, dna))
-  | .takePositions cols neg => some ((mapRows (fun r => if neg then rowTakePositionsNeg r cols else rowTakePositions r cols) a).map (·, dna))
-  | .toRna => some (.ok (a.map fun (n, r) => (n, { r with data := r.data.map toRna }), false))
-  | .toDna => some (.ok (a.map fun (n, r) => (n, { r with data := r.data.map toDna }), true))
-  | .addSelf => some (.ok (a.map fun (n, r) => (n, rowAddOther r r), dna))
-  | .addCopy => some (.ok (a.map fun (n, r) => (n, rowAddOther r (rowOfString (gapped r))), dna))
-  | .keep locs => some ((mapRows (fun r => rowKeep r locs) a).map (·, dna))
-  | .other => none
-
-def stepD (dna : Bool) (a : AlnD) : Op → Option (Except Err (AlnD × Bool))
-  | .slice x y => some (.ok (a.map fun (n, s) => (n, PySlice.slice s x y 1), dna))
-  | .int i => some ((mapDense (fun s => denseTake s [i]) a).map (·, dna))
-  | .rc => some (.ok (a.map fun (n, s) => (n, s.reverse.map (comp dna)), dna))
-  | .takeSeqs ns neg => some (.ok (takeSeqs a ns neg, dna))
-  | .takePositions cols neg => some ((mapDense (fun s =>
-      if neg then .ok ((s.zipIdx.filter fun p => !cols.contains (p.2 : Int)).map (·.1)) else denseTake s cols) a).map (·, dna))
-  | .toRna => some (.ok (a.map fun (n, s) => (n, s.map toRna), false))
-  | .toDna => some (.ok (a.map fun (n, s) => (n, s.map toDna), true))
-  | .addSelf => some (.ok (a.map fun (n, s) => (n, s ++ s), dna))
-  | .addCopy => some (.ok (a.map fun (n, s) => (n, s ++ s), dna))
-  | .keep _ => none
-  | .other => none
-
-def runA (dna : Bool) (a : AlnA) : List Op → List J
+def runA (dna : Bool) (a : AlnA) : List (Option AOp) → List J
   | [] => []
-  | op :: ops => match stepA dna a op with
-    | none => []
-    | some (.error e) => [J.obj [("err", J.str (errStr e))]]
-    | some (.ok (a', dna')) => alnJ a' :: runA dna' a' ops
+  | none :: _ => []
+  | some op :: ops => match stepA dna a op with
+    | .error e => [J.obj [("err", J.str (errStr e))]]
+    | .ok (a', dna') => alnJ a' :: runA dna' a' ops
 
-def runD (dna : Bool) (a : AlnD) : List Op → List J
+def runD (dna : Bool) (a : AlnD) : List (Option AOp) → List J
   | [] => []
-  | op :: ops => match stepD dna a op with
+  | none :: _ => []
+  | some op :: ops => match stepD dna a op with
     | none => []
     | some (.error e) => [J.obj [("err", J.str (errStr e))]]
     | some (.ok (a', dna')) => denseJ a' :: runD dna' a' ops
